@@ -135,6 +135,11 @@ func (p *makefileParser) handleTarget(
 		Inputs:       annotation.Inputs,
 		Outputs:      annotation.Outputs,
 		Tags:         annotation.Tags,
+
+		Fingerprint:          annotation.Fingerprint,
+		Platforms:            annotation.Platforms,
+		EnvironmentVariables: annotation.EnvironmentVariables,
+		Timeout:              annotation.Timeout,
 	}
 
 	// Use the annotation's name as key if provided, otherwise use the target name.
